@@ -1165,6 +1165,9 @@ class Sym:
                         rty = self.an.body.locals[0]["ty"]
                         rp = rty.get("p", "") if rty.get("k") == "adt" else ""
                         if rp.endswith("result::Result"):
+                            tr_ = strip(br[2][0])
+                            if tr_[0] == "call" and short(tr_[1]) == "Option::<T>::ok_or" and len(tr_[2]) == 2:
+                                return "Err{%s}" % self.arg_name(tr_[2][1])
                             return "Err{(%s as Err).0}" % self.name(br[2][0])
                         if rp.endswith("option::Option"):
                             return "None{}"
@@ -1371,11 +1374,19 @@ class Sym:
                         n_ += 1
                         summ = try_helper_summary(self.prog, y[1]) if y[0] == "call" else None
                         if summ is None:
+                            y0_ = strip(y)
+                            if y0_[0] == "call" and short(y0_[1]) in ("Option::<T>::ok_or", "Option::<T>::ok_or_else") and len(y0_[2]) == 2:
+                                # `opt.ok_or(e)?` continues exactly when opt is Some
+                                out_.append(("some", self.name(y0_[2][0]), y0_[2][0]))
+                                continue
                             out_.append(("ok", self.name(y), y))
                         else:
                             todo = [subst_params(z, y[2]) for z in summ[1]] + todo
                     return out_
                 if cont or brk:
+                    x0_ = strip(x)
+                    if x0_[0] == "call" and short(x0_[1]) in ("Option::<T>::ok_or", "Option::<T>::ok_or_else") and len(x0_[2]) == 2:
+                        return [("some" if cont else "none", self.name(x0_[2][0]), x0_[2][0])]
                     return [("ok" if cont else "err", self.name(x), x)]
             tyname = self.enum_of(ds[1])
             if tyname and (tyname.startswith("std::option::Option") or tyname.startswith("core::option::Option")):
@@ -1651,6 +1662,9 @@ class Sym:
             return None
         if t[0] == "downcast":
             return self.type_of(t[1], depth + 1)   # same value, narrowed to a variant
+        if t[0] == "cdef":
+            c_ = self.prog.consts.get(t[1])
+            return unref(c_.get("ty")) if c_ and c_.get("ty") else None
         if t[0] in ("cindex", "index"):
             bty = self.type_of(t[1], depth + 1)
             if bty is not None and bty.get("k") in ("slice", "array"):
